@@ -683,6 +683,9 @@ class Interp:
                 fn = obj.perm_fn if name == 'perm' else obj.inv_fn
                 return EngineFn(lambda k, fn=fn: wrap(fn(to_z3(k))))
             if isinstance(obj, (YSeq, FilteredSList)) and name in ('src', 'pos_of'):
+                if isinstance(obj, YSeq) and getattr(obj, 'no_maps', False):
+                    raise Unsupported('ghost maps src / pos_of of a generator that yields more than once per '
+                                      'iteration of a symbolic loop, or at two levels of nested loops')
                 fn = obj.src_fn if name == 'src' else obj.pos_fn
                 return EngineFn(lambda k, fn=fn: wrap(fn(to_z3(k))))
         if isinstance(obj, Sym):
